@@ -46,6 +46,11 @@ CHECKS["C11"] = dict(
    text="Theorems in coq/theories/Props/C11.v: the chunked parallel construction equals the plain site loop for every thread count (laws-free); over an abstract commutative ring, whenever ising_1d / ising_2d / heisenberg_1d / heisenberg_2d return Ok, the returned SumOp acts on every state vector exactly as the documented Hamiltonian written as an unpruned sum over all sites (site (r,c) on qubit r*M+c, bond to the next site in each direction with wrap-around, coefficients -J, -mu*h, resp. -J/2 and -mu*h/2) - so zero coefficients only omit terms and the 1-D/2-D variants share sign conventions; the uniform variants return the same list as the site-specific ones with constant arrays; a dimension below 2 is the documented error and anything else is accepted. The correspondence builds every shape 1-D n=0..40, 2-D (n,m) in 0..7 squared (const-generic variants through an instantiation table) with zero/negative/tiny/huge parameters under pools of 1..16(32) threads in the real crate and compares, inside Coq, the merged coefficient map with the model's and with the documented Hamiltonian's.",
    note="The zero test `x == 0.0` is assumed to decide x = 0 (hypothesis zero_test_ok; for binary64 this holds up to the sign of zero). Defect found and repaired: heisenberg_1d field sign (fix commit 305b126).",
    design="6 C11")
+CHECKS["C12"] = dict(
+   technique="Coq proof (Kronecker form of tensor_product for both code paths, associativity, multiplicative norm; inner-product sesquilinearity and Hermitian symmetry; Cauchy-Schwarz, normalise, fidelity and Fubini-Study range / symmetry / self-distance over the reals; constructor vectors) + differential correspondence inside coqc and metric identities on the implementation's outputs",
+   text="Theorems in coq/theories/Props/C12.v. Laws-free: entry i of a(x)b is a[i/|b|]*b[i mod |b|] (left operand on the high-order qubits) and the rayon shift/mask path equals the nested loop for all sizes. Ring level: the tensor product is associative and the squared norm multiplicative; inner_product is linear in its second and conjugate-linear in its first argument, Hermitian-symmetric, <a|a> = ||a||^2; |n> has a single unit amplitude; the Hartree-Fock index sets exactly the e high-order bits. Real level: Cauchy-Schwarz; normalise returns v/||v|| of norm 1 or ZeroNorm exactly for the zero vector; fidelity lies in [0,1], is symmetric and 1 on identical states; fs_dist = acos(sqrt F) lies in [0, pi/2], is 0 on identical states and symmetric. The correspondence runs every constructor at every size 0..12(14), State::new, tensor products on both sides of the 64-amplitude threshold, inner/normalise/fidelity and all arithmetic operators through the real crate against the model, and evaluates range / finiteness / symmetry / cos^2 d = F / triangle inequality / ray invariance on the implementation's outputs.",
+   note="PARTIAL: the triangle inequality of fs_dist and phase/ray invariance of the fidelity are not proved (checked numerically on 150(800) random triples per run); libm acos/hypot are not modelled; float rounding not modelled. Defect found and repaired: fs_dist(s,s) = NaN / fs_fidelity > 1 by rounding (fix commit 9959af3).",
+   design="6 C12")
 NOT_YET = {}
 
 def main():
